@@ -113,6 +113,7 @@ type c19Case struct {
 	BatchClass string
 	Sizes      string
 	Progress   string // nil | unbuffered | buffered
+	PreCancel  bool   // the context is already cancelled when CopyLogs is called
 	CancelGet  int64
 	CancelPut  int64
 	FailPut    int64
@@ -219,7 +220,18 @@ func c19Run(c *evid.Ctx, cs c19Case) {
 	c.Count("copies", 1)
 	c.Distinct("copy_classes", fmt.Sprintf("%s->%s|n=%s|first=%s|batch=%s|sizes=%s|cancel=%v|fail=%v", cs.Src, cs.Dst, nClass(cs.N), firstClass(cs.First), cs.BatchClass+batchAbs(cs.BatchBytes, cs.BatchClass), cs.Sizes, cs.CancelGet+cs.CancelPut > 0, cs.FailPut > 0))
 	replay := map[string]any{"case": cs, "batch_bytes": bb}
+	if cs.PreCancel {
+		cancel()
+	}
 	err = migrate.CopyLogs(ctx, wd, ws, bb, progress)
+	if cs.PreCancel {
+		c.Count("pre_cancelled_copies", 1)
+		if err == nil && cs.N > 0 {
+			c.Violation("C19:cancel-ignored", fmt.Sprintf("CopyLogs was called with a context that was already cancelled, copied %d entries (batchBytes=%d) and returned nil", cs.N, bb), replay)
+		} else if err != nil && !errors.Is(err, context.Canceled) {
+			c.Violation("C19:cancel-wrong-error", fmt.Sprintf("pre-cancelled copy returned %v, want the context's error", err), replay)
+		}
+	}
 	if late {
 		startDrain()
 	}
@@ -234,7 +246,7 @@ func c19Run(c *evid.Ctx, cs c19Case) {
 		}
 		drained.Wait()
 	}
-	cancelled := (cs.CancelGet > 0 && ws.gets.Load() >= cs.CancelGet) || (cs.CancelPut > 0 && wd.stores.Load() >= cs.CancelPut)
+	cancelled := cs.PreCancel || (cs.CancelGet > 0 && ws.gets.Load() >= cs.CancelGet) || (cs.CancelPut > 0 && wd.stores.Load() >= cs.CancelPut)
 	failed := cs.FailPut > 0 && wd.stores.Load() >= cs.FailPut
 	dObs := drv.Observe(dst, model.ProbeSet(nil, m))
 	switch {
@@ -245,7 +257,11 @@ func c19Run(c *evid.Ctx, cs c19Case) {
 		c19Prefix(c, m, dObs, replay, "after-store-error")
 	case cancelled:
 		if err == nil {
-			// cancellation may arrive after the last check; then the copy must be complete
+			// cancellation may arrive after the last check; then the copy must be complete -
+			// but it must not have gone on reading or storing afterwards
+			if (cs.CancelGet > 0 && ws.gets.Load() > cs.CancelGet) || (cs.CancelPut > 0 && wd.stores.Load() > cs.CancelPut) {
+				c.Violation("C19:cancel-ignored", fmt.Sprintf("the context was cancelled during source read %d / destination store %d, yet CopyLogs went on (%d reads, %d stores in total) and returned nil", cs.CancelGet, cs.CancelPut, ws.gets.Load(), wd.stores.Load()), replay)
+			}
 			if d := m.Diff(dObs); d != "" {
 				c.Violation("C19:cancel-nil-incomplete", "CopyLogs returned nil after cancellation but the destination is incomplete: "+d, replay)
 			}
@@ -372,6 +388,10 @@ func runC19(c *evid.Ctx) {
 				cs.CancelPut = int64(1 + rng.Intn(3))
 			case 2:
 				cs.FailPut = int64(1 + rng.Intn(3))
+			case 3:
+				if rng.Intn(2) == 0 {
+					cs.PreCancel = true
+				}
 			}
 		}
 		cases = append(cases, cs)
